@@ -147,7 +147,7 @@ impl Monitor for C13 {
         vec![("histories", tier.pick(90_000, 1_800_000)), ("long_windows", tier.pick(6_000, 120_000))]
     }
     fn rule(&self) -> &'static str {
-        "case = one real learn() run of a tiny model (dense(1) or dense(2)->dense(1), linear / ReLU / tanh, bias optional) on 1..3 training and 1..3 validation samples with dyadic inputs, targets, initial weights and learning rates (0.125..2), objective AE or MSE, batch 1..3, so that the validation loss really falls, rises from the first epoch, is V-shaped, oscillates (AE steps of fixed size around the optimum, MSE beyond the stable learning rate) or sits on plateaus of exactly equal values (AE gradient 0 at an exact hit, validation inputs 0, dead ReLU); tolerance T in 1..6, epoch budget E in 1..15, with and (every 5th) without validation data, print frequency None / 1 / 2..4 / 100. The offline checker takes the returned vectors v (validation loss), train, accuracy: |train| = |acc| = |v| = n <= E; no e < n with P(e); n < E implies P(n), where P(e) = e > T and v strictly increasing over the last T recorded epochs; without validation data n = E and the other vectors are empty. Independently the event log must show exactly n distinct update step numbers 1..n. long_windows: tolerance 7..200 (the values around 16, 32, 64, 128, 192 over-represented), budget T+1..3T+1; one weight, x = 1, AE, SGD with learning rate (1 - 1/P) ulp(S): the weight rises by the learning rate every epoch and the validation loss S + w (S = 2^k) recorded in single precision rises by one ulp except for an isolated repeat every P-th epoch, so the tolerance window is a run of rises with a single plateau that visits every window position as the window slides (P < T: training must run to the end; P >= T: it must stop at the first full window of rises, never before epoch T+1); same offline checker; evidence lists the (T, plateau position) pairs seen at decision points. Distinct = distinct (T, E, loss vector) triples; floors: all 13 window comparison patterns for T <= 3 observed at decision points, early stops and full-length runs for every T."
+        "case = one real learn() run of a tiny model (dense(1) or dense(2)->dense(1), linear / ReLU / tanh, bias optional) on 1..3 training and 1..3 validation samples with dyadic inputs, targets, initial weights and learning rates (0.125..2), objective AE or MSE, batch 1..3, so that the validation loss really falls, rises from the first epoch, is V-shaped, oscillates (AE steps of fixed size around the optimum, MSE beyond the stable learning rate) or sits on plateaus of exactly equal values (AE gradient 0 at an exact hit, validation inputs 0, dead ReLU); tolerance T in 1..6, epoch budget E in 1..15, with and (every 5th) without validation data, print frequency None / 1 / 2..4 / 100. The offline checker takes the returned vectors v (validation loss), train, accuracy: |train| = |acc| = |v| = n <= E; no e < n with P(e); n < E implies P(n), where P(e) = e > T and v strictly increasing over the last T recorded epochs; without validation data n = E and the other vectors are empty. Independently the event log must show exactly n distinct update step numbers 1..n. Every third case calls learn() a second time on the same network (own tolerance 1..4 and budget 1..10, with validation data) and applies the same checker to that call's vectors. long_windows: tolerance 7..200 (the values around 16, 32, 64, 128, 192 over-represented), budget T+1..3T+1; one weight, x = 1, AE, SGD with learning rate (1 - 1/P) ulp(S): the weight rises by the learning rate every epoch and the validation loss S + w (S = 2^k) recorded in single precision rises by one ulp except for an isolated repeat every P-th epoch, so the tolerance window is a run of rises with a single plateau that visits every window position as the window slides (P < T: training must run to the end; P >= T: it must stop at the first full window of rises, never before epoch T+1); same offline checker; evidence lists the (T, plateau position) pairs seen at decision points. Distinct = distinct (T, E, loss vector) triples; floors: all 13 window comparison patterns for T <= 3 observed at decision points, early stops and full-length runs for every T."
     }
     fn assumptions(&self) -> Vec<&'static str> {
         vec!["no value is injected into the library: trajectories come from real training", "NaN validation losses are not generated (comparisons with NaN are unspecified)"]
@@ -299,6 +299,53 @@ impl Monitor for C13 {
             }
         }
         out.cover("outcome_per_tolerance", format!("T{}:{}", t, if n < e_budget { "stopped-early" } else { "ran-to-completion" }));
+        // a later learn() call on the same (already trained) network obeys the same contract,
+        // counted from that call's own first epoch
+        if idx % 3 == 1 {
+            let t2 = rng.range(1, 4);
+            let e2 = rng.range(1, 10);
+            let (res2, events2) = in_cached_pool(2, || guard(|| net.learn(&xr, &tr, Some((&vxr, &vtr, t2 as i32)), batch, e2 as i32, None)));
+            match res2 {
+                Err(m) => {
+                    if !m.contains("Loss is NaN") {
+                        out.viol("history:second-call:learn-panic", format!("second learn() call panicked: {} [{}]", short(&m, 160), desc), J::s(&desc));
+                    }
+                }
+                Ok((tl2, vl2, va2)) => {
+                    out.count("second_learn_calls_judged", 1);
+                    let n2 = vl2.len();
+                    let d2 = || detail().set("second_call_tolerance", J::Int(t2 as i64)).set("second_call_epochs", J::Int(e2 as i64)).set("second_call_validation_loss", J::f32s(&vl2));
+                    let mut steps2: Vec<i32> = events2
+                        .iter()
+                        .filter_map(|e| match e {
+                            Event::Update { stepnr, .. } => Some(*stepnr),
+                            _ => None,
+                        })
+                        .collect();
+                    steps2.dedup();
+                    if vl2.iter().any(|v| v.is_nan()) {
+                        out.count("runs_with_NaN_validation_loss_not_judged", 1);
+                    } else if tl2.len() != n2 || va2.len() != n2 || n2 > e2 || n2 == 0 {
+                        out.viol("history:second-call:lengths", format!("second learn() call: train {} / validation {} / accuracy {} entries for a budget of {} epochs [{}]", tl2.len(), n2, va2.len(), e2, desc), d2());
+                    } else {
+                        if steps2.len() != n2 {
+                            out.viol("history:second-call:epochs-vs-entries", format!("second learn() call: {} epochs were executed (event log) but {} entries were returned [{}]", steps2.len(), n2, desc), d2());
+                        }
+                        if let Some(e) = (1..n2).find(|e| should_stop(&vl2, *e, t2)) {
+                            out.viol("history:second-call:continued-past-stop", format!("second learn() call: validation loss {:?} strictly increased over the last {} epochs at epoch {} but training continued to epoch {} [{}]", &vl2[..e], t2, e, n2, desc), d2());
+                        }
+                        if n2 < e2 && !should_stop(&vl2, n2, t2) {
+                            out.viol(
+                                "history:second-call:stopped-early-without-cause",
+                                format!("second learn() call (tolerance {}, {} epochs requested) on a network already trained for {} epochs stopped after {} epochs although its validation losses {:?} did not strictly increase over the last {} recorded epochs [{}]", t2, e2, n, n2, vl2, t2, desc),
+                                d2(),
+                            );
+                        }
+                        out.cover("second_call_outcomes", format!("{}", if n2 < e2 { "stopped-early" } else { "ran-to-completion" }));
+                    }
+                }
+            }
+        }
         if idx < 4 {
             out.sample = Some(detail());
         }
@@ -321,6 +368,8 @@ impl Monitor for C13 {
         let outcomes = agg.set_size("outcome_per_tolerance");
         agg.require(outcomes >= 12, format!("only {} of 12 (tolerance, outcome) combinations observed", outcomes));
         agg.require(agg.count("learn_runs") >= 3000, "too few learn runs".into());
+        agg.require(agg.count("second_learn_calls_judged") >= 1000, "too few second learn() calls".into());
+        agg.require(agg.set_size("second_call_outcomes") == 2, "second learn() calls: not both outcomes observed".into());
         agg.require(agg.count("long_window_runs") >= 1000, "too few long-window runs".into());
         agg.require(agg.set_size("long_outcomes") == 6, format!("long windows: only {} of 6 (tolerance class, outcome) combinations", agg.set_size("long_outcomes")));
         agg.require(agg.set_size("single_plateau_tolerance_x_position") >= 5000, format!("only {} (tolerance, plateau position) pairs observed", agg.set_size("single_plateau_tolerance_x_position")));
